@@ -384,16 +384,16 @@ def ledgerStr (d : DState) : String :=
 `s2 fault=<none|undialable|refused|limit> op=<put_to|find_node|start_providing> quorum=<one|n2|all>`: the local node
 knows a healthy peer `G` and the fault target `F`. What the model says about the outcome: a put to `[G, F]` succeeds
 iff the clamped quorum is at most the number of reachable targets (`Tracker`), a lookup ends with the peers that
-answered, an announcement goes to the peers found. For `limit` the transport manager accepts the dial of `F` and never
-concludes it (known finding): the environment does not become quiescent and the query stays live. Which remote ends
+answered, an announcement goes to the peers found. For `limit` (local node at its outgoing-connection limit) the queued
+dial of `F` fails and, since the repair recorded in known_findings.json, is reported as a dial failure like any other
+unreachable target. Which remote ends
 received the data is an observation of the implementation (checked by the oracle). -/
 
 def kvArg (ts : List String) (k : String) : Option String :=
   (ts.find? (fun t => t.startsWith (k ++ "="))).map (fun t => (t.drop (k.length + 1)).toString)
 
 def s2Expected (fault op : String) (quorum : Quorum) : String :=
-  if fault = "limit" then "-"
-  else if op = "put_to" then
+  if op = "put_to" then
     let reachable := if fault = "none" then 2 else 1
     let t := Tracker.new [1, 2] quorum
     if t.peersToSucceed ≤ reachable then "PutRecordSuccess" else "QueryFailed"
